@@ -1408,7 +1408,7 @@ func (p *Program) renumber(nd *ast.FuncDecl, orig *FuncDecl) {
 	size := 0
 	ast.Inspect(nd, func(n ast.Node) bool {
 		if n != nil {
-			size += 16
+			size += 160
 			if id, ok := n.(*ast.Ident); ok {
 				size += len(id.Name)
 			}
@@ -1429,7 +1429,7 @@ func (p *Program) renumber(nd *ast.FuncDecl, orig *FuncDecl) {
 			return
 		}
 		np := token.Pos(next)
-		next += 2 + width // leave a gap: End() of a node is its last position + 1
+		next += 16 + width // leave a gap: End() of keyword nodes is position + len(keyword)
 		// chase origins of already renumbered positions
 		if o, ok := p.posOrigin[old]; ok {
 			old = o
